@@ -82,7 +82,13 @@ def dimVecOf (env : Env) (b : BU String) : List Rat :=
 def handleQ (j : Json) : Except String Json := do
   let env ← getEnv (← field j "env")
   let op ← (← field j "op").getStr?
-  let l ← getQty (← field j "l")
+  let l0 ← getQty (← field j "l")
+  -- units handed over as a dimension list: the dict is built in DIMENSION_LIST order
+  let l : Qty String Val ← match j.getObjVal? "dimlist" with
+    | .ok dl => do
+      let names ← (← getList (← field j "dimnames")).mapM (fun x => x.getStr?)   -- live DIMENSION_LIST
+      pure ⟨l0.mag, BU.ofDimList names (← getDims dl)⟩
+    | .error _ => pure l0
   let kl := l.units.map Prod.fst
   let bl := l.base env
   match op with
